@@ -25,6 +25,16 @@ CLAIMED = {
          "sections_on/at and Section.address/size are covered by the bounded stand-in (not yet under contract)."),
  "C10": ("proof", "4.C10", "Module._index_add/_index_discard, symbols_named, Block.references, name/payload writes through the real "
          "descriptor __set__, and symbol add/discard/move through Module._NodeSet are proved to keep both indexes equal to a scan."),
+ "C13": ("proof", "4.C13", "ByteInterval.symbolic_expressions_at/_at_offset are proved to yield exactly one (interval, offset, expression) "
+         "triple per stored expression whose address/offset is in the query, in increasing offset order (nothing without an address); "
+         "section/module/IR scope proved to be the union over contained intervals up to the allowed omission (MUST<=result<=MAY, no repeats). "
+         "Mapping mutations (mixins over a SortedDict) are covered by the bounded history stand-in."),
+ "C18": ("proof", "4.C18", "deep_eq of the block leaf classes is characterised exactly against the real bodies; same-kind iff, reflexivity and "
+         "symmetry are discharged as lemmas over those characterisations. Container classes (sorted/zip/all bodies) are covered by the "
+         "bounded perturbation stand-in, stated as bounded."),
+ "C19": ("proof", "4.C19", "initialized_size getter/setter (pad/truncate), the size setter (truncate on shrink, with index maintenance), block "
+         "address/contents/contains_offset/contains_address are proved for all inputs; constructor/loader rejection and save+load by the "
+         "bounded stand-in."),
  "C12": ("proof", "4.C05", "LazyIntervalTree.get is proved to return exactly the current intervals and to leave no pending event in all "
          "three branches, whatever the number of pending events; every mutator under contract preserves the denotation invariant; "
          "so every lookup contract is a function of the current structure only."),
